@@ -20,6 +20,17 @@ UNUSED_KEYS = ["f5", "page up", "page down", "esc", "ctrl x", "shift tab", "inse
                "ctrl l", "shift f1"]
 
 
+class CaseTimeout(BaseException):
+    """The implementation did not return within the per-case time limit (a hang is a violation)."""
+
+
+def _on_alarm(_signum, _frame):
+    raise CaseTimeout()
+
+
+CASE_TIME_LIMIT = 5.0
+
+
 def cps(s):
     return [ord(c) for c in s]
 
@@ -214,10 +225,15 @@ class C10(core.Check):
             return self._last[1:]
         import urwid
         from urwid import str_util
+        import signal
         urwid.set_encoding(case.get("enc", "utf-8"))
+        old_handler = signal.signal(signal.SIGALRM, _on_alarm)
+        signal.setitimer(signal.ITIMER_REAL, CASE_TIME_LIMIT)
         try:
             out = self._trace_inner(case, urwid, str_util)
         finally:
+            signal.setitimer(signal.ITIMER_REAL, 0)
+            signal.signal(signal.SIGALRM, old_handler)
             urwid.set_encoding("utf-8")
         self._last = (key,) + out
         return out
@@ -233,6 +249,7 @@ class C10(core.Check):
         urwid.connect_signal(e, "postchange", lambda w_, old: sigs.append([2, txt_of(old), txt_of(w_.edit_text), w_.edit_pos]))
         steps_out, lays, obs = [], [], []
         last_canvas = None       # like a screen, the caller keeps the most recent canvas (only) alive
+        timed_out = False
         for st in case["steps"]:
             del sigs[:]
             kind = st[0]
@@ -244,12 +261,18 @@ class C10(core.Check):
                 ob["disp"] = list(full) if isb else full
                 try:
                     lay = e.layout.layout(full, w, e.align, e.wrap)
+                except CaseTimeout:
+                    lay = [[]]
+                    ob["layout_exc"] = "a hang (no result within %gs)" % CASE_TIME_LIMIT
+                    timed_out = True
                 except Exception as ex:      # noqa: BLE001 - judged by the oracle
                     lay = [[]]
                     ob["layout_exc"] = type(ex).__name__
             lays.append(lay)
             err, ret = None, None
             try:
+                if timed_out:
+                    raise CaseTimeout()
                 if kind == "key":
                     r = e.keypress((w,), st[1])
                     ret = ["handled"] if r is None else (["unhandled"] if r == st[1] else ["returned", repr(r)])
@@ -277,6 +300,9 @@ class C10(core.Check):
                     raise core.MachineryError("unknown step " + repr(st))
             except core.MachineryError:
                 raise
+            except CaseTimeout:
+                err = "Timeout"
+                timed_out = True
             except Exception as ex:      # noqa: BLE001 - the exception class is the observation
                 err = type(ex).__name__
                 ob["exc"] = repr(ex)[:200]
@@ -286,6 +312,8 @@ class C10(core.Check):
                               "pref": None if pm[0] is None and pm[1] is None else [prefenc(pm[0]), pm[1]],
                               "shiftv": bool(e._shift_view_to_cursor)})
             obs.append(ob)
+            if timed_out:
+                break
         del last_canvas
         return {"steps": steps_out}, lays, obs
 
@@ -455,6 +483,9 @@ class C10(core.Check):
             ob = obs[k] if k < len(obs) else {}
             lay = lays[k] if k < len(lays) else None
             w = st[-1] if kind != "setpos" else None
+            if so["err"] == "Timeout":
+                msgs.append(f"{tag}: the implementation did not return within {CASE_TIME_LIMIT:g}s (hang)")
+                return msgs
             if so["err"] is not None:
                 msgs.append(f"{tag}: raised {so['err']}")
                 return msgs
